@@ -93,6 +93,13 @@ PROJECTS = {
     "html-both": {
         "q.html": "<div>foo</div><script>foo</script>\n<em>foo</em><style>foo { color: red }</style>\n",
     },
+    # (10) the tree's root node does not start at byte 0: a UTF-8 byte order mark, leading blank
+    #      lines and indentation (every byte outside the announced edits must survive, offsets are
+    #      offsets into the file as it is on disk)
+    "bom-and-leading-blank": {
+        "w.js": "\ufefffoo(1); bar(2)\nlet z = a == b\n",
+        "l.js": "\n\n  foo(3)\nbar(4)\n",
+    },
     # (5) nothing matches; neighbours of other languages that contain the text of a match
     "no-match": {
         "n.js": "let y = 1;\n",
